@@ -536,3 +536,211 @@ def run_c18_tv(tier, seed, only=None):
         return 2, cov
     print(f"OK property=C18 jit-clif designs={proved} queries={queries}")
     return 0, cov
+
+
+# ---------------------------------------------------------------------------------------------
+# C03: every optimisation-toggle configuration emits Cranelift IR equivalent to the same RTL terms
+# ---------------------------------------------------------------------------------------------
+C03_TOGGLES = [  # (name in the property, environment that switches the pass OFF)
+    ("comb_fusion", {"VERYL_COMB_FUSION": "0"}),
+    ("cone_gate", {"VERYL_CONE_GATE": "0"}),
+    ("dead_var_dce", {"VERYL_DEAD_VAR_DCE": "0"}),
+    ("vsplit", {"VERYL_VSPLIT": "0"}),
+    ("vsplit_lut", {"VERYL_VSPLIT_LUT": "0"}),
+    ("lane_vector", {"VERYL_LANE_VECTOR": "0"}),
+    ("comb_layout", {"VERYL_COMB_LAYOUT": "0"}),
+    ("cond_hoist", {"VERYL_COND_HOIST_DISABLE": "1"}),
+    ("switch_lower", {"VERYL_SWITCH_LOWER_DISABLE": "1"}),
+    ("load_cache", {"VERYL_FORCE_DISABLE_LOAD_CACHE": "1"}),
+]
+C03_SUB = [  # per-stage levers inside the passes above
+    ("fusion_coalesce", {"VERYL_COMB_FUSION_COALESCE": "0"}),
+    ("fusion_word_coalesce", {"VERYL_COMB_FUSION_WORD_COALESCE": "0"}),
+    ("fusion_cheap", {"VERYL_COMB_FUSION_CHEAP": "0"}),
+    ("fusion_cse", {"VERYL_COMB_FUSION_CSE": "0"}),
+    ("lane_fold", {"VERYL_LANE_FOLD": "0"}),
+    ("lane_merge", {"VERYL_LANE_MERGE": "0"}),
+    ("dce_single_pass", {"VERYL_DEAD_VAR_DCE_MULTI": "0"}),
+]
+
+
+def c03_configs(tier, seed):
+    import random
+    cfgs = [("default", {})]
+    cfgs += [(f"no_{n}", e) for n, e in C03_TOGGLES]
+    alloff = {}
+    for _, e in C03_TOGGLES:
+        alloff.update(e)
+    cfgs.append(("all_off", alloff))
+    rnd = random.Random(1000 + seed)
+    nsub = 4 if tier == "quick" else 32
+    for k in range(nsub):
+        env, names = {}, []
+        for n, e in C03_TOGGLES:
+            if rnd.random() < 0.5:
+                env.update(e)
+                names.append(n)
+        cfgs.append((f"subset{k}:" + "+".join(names), env))
+    if tier == "thorough":
+        cfgs += [(f"no_{n}", e) for n, e in C03_SUB]
+    return cfgs
+
+
+def run_c03(tier, seed, write_evidence, only=None):
+    import gen_corpus
+    import hashlib
+    import re
+    t0 = time.time()
+    work = os.path.join(TARGET, "tvwork")
+    snips = os.path.join(work, "snips")
+    os.makedirs(snips, exist_ok=True)
+    if not build_tvdump():
+        log("INCONCLUSIVE C03: tvdump did not build")
+        return 2
+    items = []
+    gens = gen_corpus.gen_opt(seed)
+    if tier == "thorough":
+        gens = gens + gen_corpus.gen_jit(seed)
+    for label, code in gens:
+        h = hashlib.sha1(code.encode()).hexdigest()[:10]
+        p = os.path.join(snips, f"opt_{re.sub(r'[^A-Za-z0-9_]', '_', label)}_{h}.veryl")
+        if not os.path.exists(p):
+            open(p, "w").write(code)
+        items.append((label, p))
+    pref = ("gen::", "verif::") if tier == "quick" else ("gen::", "verif::", "integration::")
+    items += [i for i in corpus_mod.corpus(snips, seed) if i[0].startswith(pref)]
+    if only:
+        items = [i for i in items if any(o in i[0] for o in only)]
+    cfgs = c03_configs(tier, seed)
+    cj = json.dumps(cfgs)
+    jobs = int(os.environ.get("VERIF_JOBS", "16"))
+    cap = 600 if tier == "quick" else 3600
+
+    def one(it):
+        try:
+            p = subprocess.run([PY, os.path.join(ROOT, "tv", "clif_worker.py"), it[0], it[1], tier, work, cj],
+                               capture_output=True, text=True, timeout=cap)
+            return json.loads(p.stdout.strip().splitlines()[-1])
+        except Exception as e:  # noqa: BLE001
+            return dict(label=it[0], path=it[1], error=f"worker failed: {e}", modules=[])
+    with cf.ThreadPoolExecutor(max_workers=jobs) as ex:
+        results = list(ex.map(one, items))
+    stats, reasons = collections.Counter(), collections.Counter()
+    diffs, samples, queries, cfg_runs = [], [], 0, 0
+    distinct = collections.Counter()
+    for r in results:
+        if r.get("error"):
+            stats["error"] += 1
+            continue
+        for m in r["modules"]:
+            v = m["verdict"]
+            stats[v] += 1
+            queries += m.get("queries", 0)
+            if v == "equal":
+                cfg_runs += m.get("configs", 1)
+                for c in m.get("distinct_from_default", []):
+                    distinct[c] += 1
+                if len(samples) < 12:
+                    samples.append(dict(design=r["label"], top=m["top"], configurations=m.get("configs"),
+                                        outputs_compared=m.get("obligations"),
+                                        configs_with_different_ir=m.get("distinct_from_default")))
+            elif v == "differs":
+                diffs.append((r, m))
+            else:
+                reasons[m.get("why", "")[:70]] += 1
+    known = load_known()
+    violations, known_lines, unrepro, notes = [], [], [], []
+    cfg_env = dict(cfgs)
+    for (r, m) in diffs:
+        key = f"{r['label']}::{m['top']}::{m.get('config')}"
+        tag = abs(hash(key)) % 10**8
+        sp = os.path.join(work, f"optstim_{tag}.json")
+        rtlj = os.path.join(work, f"optrtl_{tag}.json")
+        subprocess.run([TVDUMP, "rtl", r["path"], rtlj, m["top"]], capture_output=True)
+        try:
+            outs = [o["name"] for o in json.load(open(rtlj))["modules"][0]["rtl"]["outputs"]]
+        except Exception:  # noqa: BLE001
+            outs = [m.get("port")]
+        json.dump(dict(inputs=m["inputs"], outputs=outs), open(sp, "w"))
+        rows = {}
+        for cname in ("default", m.get("config")):
+            e = dict(os.environ)
+            e.update(cfg_env.get(cname, {}))
+            try:
+                p = subprocess.run([TVDUMP, "jitdiff", r["path"], m["top"], sp], capture_output=True, text=True,
+                                   timeout=300, env=e)
+                rows[cname] = json.loads(p.stdout.strip().splitlines()[-1])
+            except Exception as ex_:  # noqa: BLE001
+                rows[cname] = dict(error=str(ex_))
+        a, b = rows.get("default", {}), rows.get(m.get("config"), {})
+        differ = ("error" not in a and "error" not in b and
+                  (a.get("jit") != b.get("jit") or a.get("interpreter") != b.get("interpreter")))
+        if differ:
+            rp = os.path.join(ROOT, "evidence", "replay",
+                              f"C03-{r['label'].replace('::', '_').replace('#', '_')}-{m['top']}.json")
+            os.makedirs(os.path.dirname(rp), exist_ok=True)
+            json.dump(dict(property="C03", design=r["label"], path=r["path"], top=m["top"], inputs=m["inputs"],
+                           configuration=m.get("config"), environment=cfg_env.get(m.get("config")),
+                           solver=dict(port=m.get("port"), jit=m.get("jit_value"), rtl=m.get("rtl_value")),
+                           native=rows,
+                           replay_cmd=f"env <environment> {TVDUMP} jitdiff {r['path']} {m['top']} <inputs json>  (and "
+                                      f"again without the environment)"), open(rp, "w"), indent=1)
+            kf = next((f for f in known.get("findings", []) if f["property"] == "C03" and f.get("design") == key), None)
+            if kf:
+                known_lines.append(f"KNOWN-FINDING: property=C03 {kf['what']} ({key})")
+            else:
+                violations.append((key, rp))
+        elif b.get("differ") and a.get("differ") and m.get("config") != "default":
+            notes.append(f"{key}: JIT differs from the interpreter identically with and without the toggle (C18, not C03)")
+        elif m.get("config") == "default" and a.get("differ"):
+            notes.append(f"{key}: default configuration: JIT differs from interpreter (C18, not C03)")
+        else:
+            unrepro.append((key, json.dumps(rows)[:300]))
+    proved = stats.get("equal", 0)
+    coverage = dict(
+        programs=proved, disagreements_checked=len(diffs),
+        samples=samples or [dict(note="no design reached a verdict")],
+        technique="translation validation per toggle configuration: Cranelift IR emitted by the real simulator front end "
+                  "under each environment vs one configuration-independent RTL term, z3",
+        designs_in_corpus=len(items), configurations=[c for c, _ in cfgs], verdicts=dict(stats),
+        design_x_configuration_pairs_proved=cfg_runs,
+        designs_whose_ir_changes_under=dict(distinct),
+        queries_discharged=queries, not_covered=[dict(why=k, modules=v) for k, v in reasons.most_common(12)],
+        unreproduced=[dict(design=k, native=o) for k, o in unrepro], notes=notes[:20],
+        wall_s=round(time.time() - t0, 1),
+        functions_encoded=["veryl_simulator::ir::{module (pass pipeline), opt::{comb_fusion, dead_var_dce, dup_assign_dce, "
+                           "version_split, lane_vector}, comb_layout} and backend::cranelift::{statement (switch lowering), "
+                           "runtime (load cache)}: run concretely per design and toggle set inside build_ir; their result "
+                           "is the Cranelift IR that is encoded"],
+        bounds=f"programs = {len(items)} comb-only single-module designs (shapes aimed at each pass + the operator "
+               f"corpus); configurations = default, each of the 10 toggles off, all off, {4 if tier == 'quick' else 32} "
+               f"seeded random subsets{'' if tier == 'quick' else ', 7 per-stage levers'}; all input values and all "
+               f"previous buffer contents; z3 timeout {20 if tier == 'quick' else 120}s per query",
+        outside_claim="designs with state, instances (so cone gating, which needs a module subtree, never fires), "
+                      "$display / test verdicts (so conditional hoisting never fires), the interpreter's execution of the "
+                      "optimised statements (replayed natively, not encoded), what Cranelift does below its IR",
+    )
+    assumptions = [
+        "RTL reference semantics: tv/tvdump/src/rtl.rs (shared with C19/C18, independent of every toggle)",
+        "CLIF semantics: tv/clif.py; buffer cells hold width-clean previous values; input cells hold the inputs",
+        "a toggle is observed only through the environment variable of a fresh process (OnceLock per process)",
+    ]
+    write_evidence("C03", tier, seed, "translation_validation", coverage, assumptions, time.time() - t0, len(violations))
+    for line in known_lines:
+        print(line)
+    if violations:
+        for (k, rp) in violations:
+            print(f"VIOLATION property=C03 replay={rp}")
+            log(f"  {k}")
+        return 1
+    floor = (60 if tier == "quick" else 300) if not only else 0
+    missing = [n for n in ("no_comb_fusion", "no_dead_var_dce", "no_vsplit", "no_vsplit_lut", "no_comb_layout",
+                           "no_switch_lower") if not distinct.get(n)] if not only else []
+    if unrepro or proved < floor or missing:
+        log(f"INCONCLUSIVE C03: {dict(stats)} unreproduced={unrepro[:3]} floor={floor} toggles never changing the IR={missing}")
+        return 2
+    for n in notes[:10]:
+        log("NOTE C03", n)
+    print(f"OK property=C03 tier={tier} designs={proved} design_x_config={cfg_runs} queries={queries}")
+    log(json.dumps(dict(distinct)))
+    return 0
